@@ -302,3 +302,43 @@ pub fn iter_api(bits: usize, cap: usize) -> Value {
     }
     json!({"bits": bits, "cap": cap, "mismatches": bad})
 }
+
+/// C18: FRESH parameter objects whose FIRST use is raced: in every round one new object (capacity above the statement's aggregation factor)
+/// is shared by all threads, which are released together and each prove + verify at once; every result must equal what a lone thread gets
+/// from an object of its own
+pub fn fresh_race(spec: &Value) -> Value {
+    let nthreads = spec["threads"].as_u64().unwrap_or(8) as usize;
+    let rounds = spec["rounds"].as_u64().unwrap_or(20);
+    let bits = spec["bits"].as_u64().unwrap_or(8) as usize;
+    let cap = spec["cap"].as_u64().unwrap_or(4) as usize;
+    let t = spec["T"].as_u64().unwrap_or(1) as usize;
+    let lone = RangeParameters::<RistrettoPoint>::init(bits, cap, ristretto::create_pedersen_gens_with_extension_degree(ext_degree(t))).unwrap();
+    let baseline: Vec<Value> = (0..4u64).map(|s| task(&lone, s)).collect();
+    let baseline = Arc::new(baseline);
+    let mut mismatches = vec![];
+    for round in 0..rounds {
+        let params = Arc::new(RangeParameters::<RistrettoPoint>::init(bits, cap, ristretto::create_pedersen_gens_with_extension_degree(ext_degree(t))).unwrap());
+        let barrier = Arc::new(Barrier::new(nthreads));
+        let hs: Vec<_> = (0..nthreads)
+            .map(|i| {
+                let (p, b, base) = (params.clone(), barrier.clone(), baseline.clone());
+                std::thread::spawn(move || {
+                    b.wait();
+                    let s = (i as u64 + round) % 4;
+                    let r = std::panic::catch_unwind(std::panic::AssertUnwindSafe(|| task(&p, s))).unwrap_or_else(|_| json!({"panic": true}));
+                    if r != base[s as usize] {
+                        Some(json!({"round": round, "thread": i, "seed": s, "ok": r["ok"], "panic": r["panic"]}))
+                    } else {
+                        None
+                    }
+                })
+            })
+            .collect();
+        for h in hs {
+            if let Some(m) = h.join().unwrap() {
+                mismatches.push(m);
+            }
+        }
+    }
+    json!({"mismatches": mismatches, "calls": rounds * nthreads as u64})
+}
